@@ -14,11 +14,11 @@ from labtech.storage import LocalStorage
 from common import coq_failing, rng_for, CoqError, g_list, g_bool, subdir
 
 KEYS = ['', '.', '..', 'k1', 'k2', 'new', 'a/b', '/abs', '../outside', 'k1/../k1', 'lnk_out', 'lnk_sib', 'lnk_self',
-        'lnk_loop_a', 'lnk_dangling', 'lnk_abs', 'lnk_up', 'lnk_file', 'k1\x00', 'a\\b', 'é', ' ', 'k1/', './k1', 'plainfile',
+        'lnk_loop_a', 'lnk_dangling', 'lnk_dangling_out', 'lnk_abs', 'lnk_up', 'lnk_file', 'k1\x00', 'a\\b', 'é', ' ', 'k1/', './k1', 'plainfile',
         'pickle__T__0123abcd', '.gitignore', '~', 'k1/f1', 'lnk_deep', '*', 'k 1', '-rf', 'K1']
 FILES = ['', '.', '..', 'f1', 'newfile', 'sub/inner', '/etc/passwd_lv', '../k2/g', '../../outside/canary', 'flnk_out',
          'flnk_in', 'flnk_self', 'flnk_dangling', 'flnk_sib', 'sub', 'f1\x00', 'a\\b', 'metadata.json', 'data.pickle',
-         'sub/../f1', './f1', 'flnk_dir', 'é', ' ', '../k1x/g', 'flnk_px']
+         'sub/../f1', './f1', 'flnk_dir', 'é', ' ', '../k1x/g', 'flnk_px', '../../escaped/x', '../newsib/x', 'newsub/x']
 MODES = ['r', 'w', 'wb', 'a', 'x', 'r+', 'rb', 'w+']
 CWD0 = os.getcwd()
 
@@ -46,6 +46,7 @@ def build_sandbox(base, variant):
     L('..', os.path.join(store, 'lnk_up'))
     L('k1/f1', os.path.join(store, 'lnk_file'))
     L('k1/sub', os.path.join(store, 'lnk_deep'))
+    L('../outside/newdir', os.path.join(store, 'lnk_dangling_out'))      # dangling, and its target would lie outside
     k1 = os.path.join(store, 'k1')
     L('../../outside/canary', os.path.join(k1, 'flnk_out'))
     L('f1', os.path.join(k1, 'flnk_in'))
@@ -279,11 +280,11 @@ def gen_case(rng):
 
 DIRECTED = [dict(op='file', key=k, filename=f, mode=m, variant=v)
             for k, f in (('k1', 'flnk_out'), ('k1', 'flnk_dangling'), ('k1', 'flnk_sib'), ('k1', 'flnk_dir'), ('k1', 'flnk_in'),
-                         ('k1', '../k2/g'), ('k1', '../k1x/g'), ('k1', 'flnk_px'), ('k1', '/etc/passwd_lv'), ('k1', 'sub/inner'), ('lnk_sib', 'f1'), ('lnk_out', 'canary'),
+                         ('k1', '../k2/g'), ('k1', '../k1x/g'), ('k1', 'flnk_px'), ('k1', '../../escaped/x'), ('k1', '../newsib/x'), ('lnk_dangling_out', 'f'), ('k1', '/etc/passwd_lv'), ('k1', 'sub/inner'), ('lnk_sib', 'f1'), ('lnk_out', 'canary'),
                          ('lnk_abs', 'deep'), ('lnk_deep', 'inner'), ('lnk_up', 'plainfile'), ('new', 'newfile'), ('k2', 'g'))
             for m in ('r', 'w', 'a') for v in (0, 1)] + \
            [dict(op=o, key=k, variant=v) for o in ('delete', 'exists')
-            for k in ('lnk_out', 'lnk_sib', 'lnk_abs', 'lnk_up', 'lnk_deep', 'lnk_file', 'k1', '..', 'k1/../k2', 'lnk_dangling') for v in (0, 1)]
+            for k in ('lnk_out', 'lnk_sib', 'lnk_abs', 'lnk_up', 'lnk_deep', 'lnk_file', 'k1', '..', 'k1/../k2', 'lnk_dangling', 'lnk_dangling_out') for v in (0, 1)]
 
 
 def run(prop, report, tier, seed, replay=None):
